@@ -82,6 +82,38 @@ func (fr *Frame) intercept(st *State, fn *ssa.Function, pkg string, args []Val, 
 			return Val{T: Ite(ok, V("iface_nil", SIfc), e)}, true
 		}
 	}
+	if strings.HasSuffix(pkg, "go-msgpack/v2/codec") && recv == "Decoder" && name == "Decode" && len(args) == 2 && args[0].T != nil {
+		// a stream decoder: the k-th value it yields is a deterministic function of the decoder and k (whatever the
+		// peer wrote); decoded values are arbitrary inhabitants of the target type
+		l := args[1].L
+		if l == nil && args[1].T != nil && ex.boxedLocs != nil {
+			l = ex.boxedLocs[args[1].T.Op]
+		}
+		if l == nil && args[1].T != nil {
+			if call, ok := instr.(*ssa.Call); ok && len(call.Call.Args) == 2 {
+				if mi, ok := call.Call.Args[1].(*ssa.MakeInterface); ok {
+					if _, isPtr := mi.X.Type().Underlying().(*types.Pointer); isPtr {
+						l = ex.locFromPtr(Val{T: unboxArg(args[1].T)}, mi.X.Type())
+					}
+				}
+			}
+		}
+		if l != nil && (l.Comp != "" || len(l.Keys) == 1) {
+			ex.trusted["codec.Decoder.Decode: the k-th value read from a stream is a deterministic function of (decoder, k); decoded values arbitrary inhabitants of T"] = true
+			ok, val := ex.streamDecodeTerms(st, args[0].T, l.Elem)
+			if ex.ghost == 0 {
+				ex.assume(st, ex.typeFacts(val, l.Elem))
+				fr.loadFacts(st, val, l.Elem)
+			}
+			junk := ex.ctx.Fresh("decjunk", val.Sort)
+			ex.store(st, l, Ite(ok, val, junk))
+			cnt := ex.get(st, "DecCount", ArraySort(SRef, SInt))
+			ex.set(st, "DecCount", Store(cnt, args[0].T, Add(Select(cnt, args[0].T), IntLit(1))))
+			e := ex.ctx.Fresh("decerr", SIfc)
+			ex.assume(st, Neq(e, V("iface_nil", SIfc)))
+			return Val{T: Ite(ok, V("iface_nil", SIfc), e)}, true
+		}
+	}
 	switch full {
 	case "sync.Mutex.Lock", "sync.RWMutex.Lock":
 		ex.trusted["sync locks: mutual exclusion as specified"] = true
@@ -145,7 +177,12 @@ func (fr *Frame) intercept(st *State, fn *ssa.Function, pkg string, args []Val, 
 		return fr.havocResult(st, fn.Signature.Results(), "fmt"), true
 	case "time.Now":
 		ex.trusted["time: Now arbitrary, Sub/After/Before/Add uninterpreted functions of their operands"] = true
-		return fr.havocResult(st, fn.Signature.Results(), "now"), true
+		v := fr.havocResult(st, fn.Signature.Results(), "now")
+		if ex.ghost == 0 && v.T != nil {
+			// ghost log of the clock readings of this call ("now"), so that contracts can speak about them
+			ex.logAppend(st, "now", v.T)
+		}
+		return v, true
 	case "math/rand.Intn", "math/rand.Int63n", "math/rand.Int31n", "math/rand/v2.IntN":
 		ex.trusted["math/rand.Intn(n): an arbitrary value in [0,n); panics for n <= 0"] = true
 		fr.safetyNamed(st, "assert", Gt(args[0].T, IntLit(0)), pos, "rand.Intn argument > 0", instr)
@@ -619,4 +656,13 @@ func (ex *Exec) lockRelyOfComp(comp string) (LockRely, bool) {
 		}
 	}
 	return LockRely{}, false
+}
+
+// streamDecodeTerms: success flag and value of the next item a stream decoder yields as type t.
+func (ex *Exec) streamDecodeTerms(st *State, dec *Term, t types.Type) (*Term, *Term) {
+	cnt := Select(ex.get(st, "DecCount", ArraySort(SRef, SInt)), dec)
+	tn := mangleType(t)
+	ok := ex.ctx.UF("sdec_ok_"+tn, SBool, dec, cnt)
+	val := ex.ctx.UF("sdec_"+tn, ex.ctx.SortOf(t), dec, cnt)
+	return ok, val
 }
